@@ -52,7 +52,8 @@ MANIFEST_TEXT = (
     'Exhaustive: all 256 bytes x 10 predefined alphabet encodings (alone, before and after a valid symbol, in a second row) '
     'through 9 input forms; every text of <= 3 (quick) / 4 (thorough) characters over a 6-symbol sub-alphabet (incl. lower case '
     'and non-letter symbols) in every layout of 1..3 rows, and the same with one foreign character of each class at '
-    'every position (must raise); every ordered pair of alphabets (+ASCII target) x every text of <= 3 / 4 characters '
+    'every position (must raise); on every accepted text a second round: the first results are edited in place, then every '
+    'input form encodes the same text again (a result handed out twice would decode to the edited letters); every ordered pair of alphabets (+ASCII target) x every text of <= 3 / 4 characters '
     '(3 for the 21- and 16-symbol alphabets) over the full source alphabet x flat / scalar / ragged layouts through '
     'as_encoded_array, change_encoding and target.encode (same text or raises, never other letters); the three numeric offset encodings over all 256 bytes.')
 MANIFEST_NOTE = ('Trusted: NumPy, CPython, engine/observe.py, the alphabets as written in models/alphabets.py. '
@@ -243,6 +244,7 @@ def check_encode(res, case):
     failing = {}
     accepted = 0
     returned = []
+    kept = []
     exc_names = set()
     for form in forms:
         res.transitions += 1
@@ -256,6 +258,8 @@ def check_encode(res, case):
             continue
         accepted += 1
         returned.append(form)
+        if isinstance(out, (lib()['EncodedArray'], lib()['EncodedRaggedArray'])):
+            kept.append(out)
         first = observe_rows(out)
         if not model['ok']:
             failing.setdefault('accepts-character-outside-alphabet', {})[form] = (
@@ -281,6 +285,34 @@ def check_encode(res, case):
                 raw = None
             if raw is not None and raw != [c for r in model['codes'] for c in r]:
                 res.extra['raw_codes_differ_from_alphabet_index(not judged)'] += 1
+    if model['ok'] and n_chars >= 1 and kept:
+        # History: the results of the first round are EDITED in place (explicit assignment, every code replaced by the
+        # next code of the alphabet), then every form is called again on the same text.  A result handed out twice
+        # (a literal cache, a shared scratch buffer) shows up as a second result that decodes to the edited letters.
+        edited = 0
+        size = max(len(A.ALPHABETS[name]), 2)
+        for out in kept:
+            try:
+                buf = np.asarray(out.ravel().raw())
+            except Exception:       # the library cannot flatten its own result: already reported through the observation
+                continue
+            if buf.flags.writeable and buf.size:
+                buf[...] = (buf.astype(int) + 1) % size
+                edited += 1
+        res.extra['encode results edited in place before the second round'] += edited
+        if edited:
+            for form in returned:
+                res.transitions += 1
+                try:
+                    again = observe_rows(FORM_FUNCS[form](enc, rows))
+                except Exception as e:
+                    again = ('raises', exc_name(e))
+                expected = [model['rows']]
+                if form == 'encode(uint8[][])' and name in A.FLAT_ENCODINGS:
+                    expected.append([''.join(model['rows'])])
+                if again[0] != 'rows' or again[1] not in expected:
+                    failing.setdefault('encode-again-after-earlier-result-was-edited', {})[form] = (
+                        {'rows': model['rows']}, {'second_call': again}, None)
     res.traces += 1
     if n_chars >= 1:
         res.nontrivial += 1
@@ -297,7 +329,7 @@ def check_encode(res, case):
             cls = model['offending']['class']
         else:
             cls = label
-        if kind == 'decoded-text-differs-from-uppercased-original':
+        if kind in ('decoded-text-differs-from-uppercased-original', 'encode-again-after-earlier-result-was-edited'):
             # the clause is about upper-casing and about rows: those are the relevant facts of the case
             feats = {'form': form, 'rows': 'multi' if len(rows) > 1 else 'single',
                      'has_lower_case': 'lower_of_letter' in model['classes']}
